@@ -360,6 +360,118 @@ func (c *c17) hv(hc HVCase) {
 	c.out.Emit(ev)
 }
 
+// hrv: the response side of the conversion table - a field annotated api.header / api.cookie holds the abstract value,
+// Thrift->JSON must deliver it as text; the text is read back with strconv (lexical oracle) and logged as the abstract value
+func (c *c17) hrv(hc HVCase) {
+	c.cases++
+	tyw := map[string]string{"bool": "bool", "i8": "byte", "i16": "i16", "i32": "i32", "i64": "i64", "double": "double", "string": "string"}[hc.Ty]
+	code := map[string]byte{"bool": 2, "i8": 3, "i16": 6, "i32": 8, "i64": 10, "double": 4, "string": 11}[hc.Ty]
+	var v B
+	if err := json.Unmarshal(hc.V, &v); err != nil || tyw == "" {
+		die("hrv value: %v: %s", err, hc.V)
+	}
+	anno := map[string]string{"header": `api.header = "x-val"`, "cookie": `api.cookie = "ck"`}[hc.Src]
+	idl := fmt.Sprintf("namespace go hv\nstruct Resp {\n  1: %s f (%s)\n  2: string msg\n  3: i32 n\n}\nservice S { Resp M(1: Resp r) }\n", tyw, anno)
+	desc, ok := c.descs[idl]
+	if !ok {
+		svc, err := thrift.NewDescritorFromContent(context.Background(), "hrv.thrift", idl, nil, true)
+		if err != nil {
+			die("hrv idl rejected: %v\n%s", err, idl)
+		}
+		fn, _ := svc.LookupFunctionByMethod("M")
+		desc = fn.Request().Struct().FieldById(1).Type()
+		c.descs[idl] = desc
+	}
+	doc := []byte{code, 0, 1}
+	switch hc.Ty {
+	case "string":
+		doc = append(append(doc, byte(len(v)>>24), byte(len(v)>>16), byte(len(v)>>8), byte(len(v))), v...)
+	case "bool":
+		doc = append(doc, v[7])
+	default:
+		w := map[string]int{"i8": 1, "i16": 2, "i32": 4, "i64": 8, "double": 8}[hc.Ty]
+		doc = append(doc, v[8-w:]...)
+	}
+	doc = append(doc, 11, 0, 2, 0, 0, 0, 1, 'm', 8, 0, 3, 0, 0, 0, 7, 0)
+	ev := map[string]interface{}{"ev": "HRV", "ty": hc.Ty, "v": v, "dst": hc.Src, "st": "ok", "gotv": B{}, "inbody": true, "others": false, "txt": "", "case": hc}
+	func() {
+		defer func() {
+			if e := recover(); e != nil {
+				ev["st"] = "panic:" + fmt.Sprint(e)
+			}
+		}()
+		resp := dhttp.NewHTTPResponse()
+		ctx := context.WithValue(context.Background(), conv.CtxKeyHTTPResponse, resp)
+		cv := t2j.NewBinaryConv(conv.Options{EnableHttpMapping: true})
+		out, err := cv.Do(ctx, desc, doc)
+		if err != nil {
+			ev["st"] = "err"
+			ev["note"] = err.Error()
+			return
+		}
+		var m map[string]interface{}
+		if json.Unmarshal(out, &m) != nil {
+			ev["st"] = "badjson"
+			return
+		}
+		_, inbody := m["f"]
+		ev["inbody"] = inbody
+		ev["others"] = m["msg"] == "m" && fmt.Sprint(m["n"]) == "7"
+		var text string
+		if hc.Src == "header" {
+			vs := resp.Response.Header.Values("x-val")
+			if len(vs) != 1 {
+				ev["st"] = fmt.Sprintf("header-set-%d-times", len(vs))
+				return
+			}
+			text = vs[0]
+		} else {
+			var found []string
+			for _, ck := range resp.Response.Cookies() {
+				if ck.Name == "ck" {
+					found = append(found, ck.Value)
+				}
+			}
+			if len(found) != 1 {
+				ev["st"] = fmt.Sprintf("cookie-set-%d-times", len(found))
+				return
+			}
+			text = found[0]
+		}
+		ev["txt"] = text
+		switch hc.Ty {
+		case "string":
+			ev["gotv"] = B(text)
+		case "bool":
+			b, err := strconv.ParseBool(text)
+			if err != nil {
+				ev["st"] = "unparsable"
+				return
+			}
+			if b {
+				ev["gotv"] = be8(1)
+			} else {
+				ev["gotv"] = be8(0)
+			}
+		case "double":
+			f, err := strconv.ParseFloat(text, 64)
+			if err != nil {
+				ev["st"] = "unparsable"
+				return
+			}
+			ev["gotv"] = be8(int64(math.Float64bits(f)))
+		default:
+			i, err := strconv.ParseInt(text, 10, 64)
+			if err != nil {
+				ev["st"] = "unparsable"
+				return
+			}
+			ev["gotv"] = be8(i)
+		}
+	}()
+	c.out.Emit(ev)
+}
+
 // ---- response side ----
 
 func (c *c17) response(kind string, ty string) {
@@ -527,6 +639,15 @@ func c17Main(args map[string]string) {
 				Body bool   `json:"body"`
 			}
 			json.Unmarshal(line, &probe)
+			if probe.Kind == "hrv" {
+				var hv HVCase
+				if err := json.Unmarshal(line, &hv); err != nil {
+					die("bad hrv case: %v: %s", err, line)
+				}
+				c.out.Begin(idx-1, hv)
+				c.hrv(hv)
+				return
+			}
 			if probe.Kind == "hv" {
 				var hv HVCase
 				if err := json.Unmarshal(line, &hv); err != nil {
